@@ -759,6 +759,11 @@ func TestVerifC37(t *testing.T) {
 	r := ev.Start(t, "C37")
 	defer r.Finish()
 	defer c37Watchdog(r)()
+	r.Assume("ants is replaced by the vants model (bounded workers, non-blocking Invoke, overload/closed errors, worker-not-yet-idle window, ReleaseTimeout, panic handler)")
+	r.Assume("timers, tickers and context deadlines run on virtual time: a timer fires only as a scheduler decision (one deviation) or when nothing else can run")
+	r.Assume("pkg/goroutine is rewritten at spawn level only: its atomics and short mutex sections are not scheduling points")
+	r.Assume("handlers and the cancellation hook never block or fail; CancelRunningOnClose and observers are not exercised")
+	r.Assume("exactly-once is required only when Close returned nil; when Close returns its context's error only at-most-once is required (documented: Close drains until ctx expires)")
 	var specs []c37Spec
 	specs = append(specs, c37PoolSpecs(r)...)
 	specs = append(specs, c37BatchSpecs(r)...)
